@@ -715,11 +715,14 @@ def _check_converter(ctx, cls, meth, has_copy, inst, origin, obs=None):
         ctx.hist('converter_outcome', 'skipped:arguments')
         return
     # sequences travel as plain pydicom Sequence / list of plain datasets, datasets as plain Dataset
-    for copy in ((True, False) if has_copy else (None,)):
+    import copy as _copy
+    for copy, typed in [(c, t) for c in ((True, False) if has_copy else (None,)) for t in (False, True)]:
+        # the argument: a plain pydicom object, or one that already has the highdicom classes (a path where a
+        # converter might be tempted to skip its defensive copy)
         try:
-            plain = plainify(inst)
+            plain = _copy.deepcopy(inst) if typed else plainify(inst)
         except Exception as e:  # noqa: BLE001
-            ctx.note(f'plainify failed for {name}: {e}')
+            ctx.note(f'could not prepare the argument of {name}: {e}')
             return
         if meth == 'from_sequence' and cls.__module__ == 'highdicom.sr.templates':
             # the template converters take content items that were already parsed (what ContentSequence.from_sequence yields)
@@ -733,7 +736,7 @@ def _check_converter(ctx, cls, meth, has_copy, inst, origin, obs=None):
         elif meth == 'from_sequence' and cls.__module__.startswith('highdicom.sr') and \
                 ctx.rng('convseq', ctx.evaluations).random() < 0.5:
             plain = list(plain)
-        case = {'converter': name, 'copy': copy, 'origin': origin}
+        case = {'converter': name, 'copy': copy, 'typed_argument': typed, 'origin': origin}
         before = snap(plain)
         ids_before = mutable_ids(plain)
         try:
@@ -745,8 +748,8 @@ def _check_converter(ctx, cls, meth, has_copy, inst, origin, obs=None):
             if d and copy is not False:
                 ctx.fail(case, f'original altered by a conversion that then refused: {d}', site=name)
             continue
-        ctx.case(sample=case if ctx.evaluations % 53 == 0 else None, nontrivial_key=('conv', name, copy),
-                 converter=name, converter_outcome='ok', copy=copy)
+        ctx.case(sample=case if ctx.evaluations % 53 == 0 else None, nontrivial_key=('conv', name, copy, typed),
+                 converter=name, converter_outcome='ok', copy=copy, typed_argument=typed)
         if obs is not None:
             obs.append((f'{cls.__qualname__}.{meth}', copy, res is plain, snap(plain) != before, case))
         if copy is False:
